@@ -910,19 +910,20 @@ def loss_rate_shape(cx, iid):
         for dloc, kind, node in b.defs.get(0, []):
             v = show(b.rvalue_expr(node["rv"])) if kind == "assign" else show(b.call_expr(node))
             alts = fa.at(dloc) or []
+            LN = r"VecDeque::len\(arg1\.entries\)"
             if v in ("0.0", "0"):
-                case, need = "empty", [r"eq\(0,VecDeque::len\(arg1\.entries\)\)"]
+                case, need = "empty", [[r"eq\(0,%s\)" % LN]]
             elif "f64::max(" in v:
-                case, need = "general", [r"lt\(1,VecDeque::len\(arg1\.entries\)\)"]
+                case, need = "general", [[r"lt\(1,%s\)" % LN], [r"ne\(0,%s\)" % LN, r"ne\(1,%s\)" % LN], [r"le\(2,%s\)" % LN]]
             else:
-                case, need = "single", [r"le\(VecDeque::len\(arg1\.entries\),1\)", r"ne\(0,VecDeque::len\(arg1\.entries\)\)"]
+                case, need = "single", [[r"le\(%s,1\)" % LN, r"ne\(0,%s\)" % LN], [r"eq\(1,%s\)" % LN], [r"lt\(%s,2\)" % LN, r"ne\(0,%s\)" % LN]]
                 if not re.fullmatch(r"div\((.*WEIGHTS\[0\]),mul\((cast<f64>\(arg1\.entries\[0\]\.length\),\1|\1,cast<f64>\(arg1\.entries\[0\]\.length\))\)\)", v):
                     inst.violation(b.path, "single-interval loss rate", "with one loss interval the loss rate is `%s`, expected w_0 / (l_0 * w_0)" % v[:140], at=b.span_at(dloc))
             seen.add(case)
             from mirlib import alt_satisfies
             inst.site(b, dloc, "loss rate, %s history" % case)
-            if not alts or any(not alt_satisfies(a, need) for a in alts):
-                inst.violation(b.path, "loss-rate case " + case, "the %s-history formula of compute_loss_rate is reachable outside its case (%s)" % (case, " and ".join(x.replace("\\", "") for x in need)), at=b.span_at(dloc))
+            if not alts or any(not any(alt_satisfies(a, conj) for conj in need) for a in alts):
+                inst.violation(b.path, "loss-rate case " + case, "the %s-history formula of compute_loss_rate is reachable outside its case (%s)" % (case, " and ".join(x.replace("\\", "") for x in need[0])), at=b.span_at(dloc))
         if seen != {"empty", "general", "single"} and b.defs.get(0):
             inst.violation(b.path, "loss-rate cases", "compute_loss_rate does not distinguish the empty, single-interval and general history (found %s)" % sorted(seen))
         pn = R.body("LossIntervalQueue::push_nack")
